@@ -33,11 +33,12 @@ const (
 	wClose
 	wResetSame
 	wResetNew
+	wResetFailing // Reset onto a sink that fails from its second call on (the header gets through)
 	numWOps
 )
 
 var wOpNames = []string{"Apply(BlockChecksum)", "Apply(BlockSize256K)", "Apply(SizeWithZeroHeaderChecksum)", "Apply(NoChecksum)", "Apply(LegacyOn)", "Apply(LegacyOff)",
-	"Write(0)", "Write(100)", "Write(65536)", "Write(70000)", "ReadFrom(1000)", "Flush", "Close", "Reset(same)", "Reset(new)"}
+	"Write(0)", "Write(100)", "Write(65536)", "Write(70000)", "ReadFrom(1000)", "Flush", "Close", "Reset(same)", "Reset(new)", "Reset(failing sink)"}
 
 // model of the options as the property describes them
 type wModel struct {
@@ -307,7 +308,7 @@ func runWriterSeq(c *Ctx, i int64, seq []int, conc bool) {
 		tag := ""
 		isApply := op <= wApplyLegacyOff
 		switch {
-		case conc && stopped && !ep.started && (op == wClose || op == wResetSame || op == wResetNew || isApply) && !afterClose:
+		case conc && stopped && !ep.started && (op == wClose || op == wResetSame || op == wResetNew || op == wResetFailing || isApply) && !afterClose:
 			// the ordering goroutine of the previous frame has been stopped (by Close or Reset) and no
 			// new frame has been started: signalling it again is the F6 history
 			tag = "pipeline-signalled-again-after-stop/" + mc
@@ -315,7 +316,7 @@ func runWriterSeq(c *Ctx, i int64, seq []int, conc bool) {
 			tag = "write-after-close/" + mc
 		case afterClose && op == wClose:
 			tag = "close-after-close/" + mc
-		case afterClose && (op == wResetSame || op == wResetNew):
+		case afterClose && (op == wResetSame || op == wResetNew || op == wResetFailing):
 			tag = "reset-after-close/" + mc
 		case afterClose && op == wFlush:
 			tag = "flush-after-close/" + mc
@@ -469,24 +470,35 @@ func runWriterSeq(c *Ctx, i int64, seq []int, conc bool) {
 			}
 			ep.closed = true
 			stopped = true
-		case wResetSame, wResetNew:
+		case wResetSame, wResetNew, wResetFailing:
 			if ep.started {
 				stopped = true
 			}
 			// clause (d): differential replay of the epoch that ends here
 			finished := ep
 			sink := ep.sink
-			if op == wResetNew {
+			switch {
+			case op == wResetNew:
 				sink = newSink()
-			} else {
+			case op == wResetFailing:
+				sink = newSink()
+				sink.FailFrom = 2
+			case sink.FailFrom != 0:
+				// "the same sink" after a failing one: it stays broken
+				sink.Calls = 0
+				sink.FailFrom = 1
+			default:
 				sink.Calls = 0 // fresh call budget for the next epoch
 			}
 			panicked = call("Writer.Reset", tag, func() { w.Reset(sink) })
-			if !panicked && !hung && epochNo > 1 {
+			if !panicked && !hung && epochNo > 1 && finished.sink.FailFrom == 0 {
 				replayEpoch(c, finished, seq, mc)
 			}
 			epochNo++
 			ep = &wEpoch{sink: sink, start: len(sink.Buf), afterOff: legacyOffAfterOn}
+			if sink.FailFrom != 0 {
+				c.Count("epochs_on_a_failing_sink", 1)
+			}
 			if panicked {
 				hung = true
 			}
@@ -502,7 +514,7 @@ func runWriterSeq(c *Ctx, i int64, seq []int, conc bool) {
 		}
 		ep.results = append(ep.results, wOpNames[op]+"="+res)
 	}
-	if epochNo > 1 && !hung {
+	if epochNo > 1 && !hung && ep.sink.FailFrom == 0 {
 		replayEpoch(c, ep, seq, mc)
 	}
 	if !hung {
